@@ -3,79 +3,10 @@ Driver/Main.lean — `pmdriver`: reads correspondence records (one per line) on 
 each with the executable model, evaluates the property oracles on the implementation's
 observed output, and answers one line per record:
   `ok <flags…>` | `DISAGREE <kind> model=<…> impl=<…>` | `ORACLE-FAIL <property> <detail>` |
-  `BADREC <kind>`.
+  `KNOWN <property> <signature> …` | `BADREC <kind>`.
 -/
-import Driver.Proto
-import PmVerif.Spec.Needed
+import Driver.Stages1
 open Pm Drv
-
-def FUEL : Nat := 1000000
-
-def isAcyclicScheme (s : TScheme) : Bool :=
-  -- Kahn-style: repeatedly remove keys all of whose prerequisites are removed
-  let n := s.length
-  let rec go (fuel : Nat) (done : List Nat) : Bool :=
-    match fuel with
-    | 0 => done.length == n
-    | f + 1 =>
-      let next := (List.range n).filter fun k =>
-        !done.contains k && (s.req k).all (fun r => r ≥ n || done.contains r)
-      if next.isEmpty then done.length == n else go f (done ++ next)
-  go (n + 1) []
-
-def flagsMissing (s : TScheme) (out : List Nat) : String :=
-  let shared := (List.range s.length).any fun p =>
-    ((List.range s.length).filter fun k => (s.req k).contains p).length ≥ 2
-  join ([s!"len={out.length}"] ++ (if shared then ["shared"] else []) ++
-    (if out.length ≥ 2 then ["nt"] else []))
-
-def handleMissing (single : Bool) : Parser String := do
-  let s ← pScheme
-  let (keys, known) ← (if single then do
-      let known ← pList pNat
-      let k ← pNat
-      pure ([k], known)
-    else do
-      let keys ← pList pNat
-      let known ← pList pNat
-      pure (keys, known))
-  expect "=>"
-  let implToks ← rest
-  let impl := join implToks
-  let model :=
-    if single then missingBindings s.req known (keys.headD 0) FUEL
-    else allMissingBindings s.req keys known FUEL
-  let modelS := match model with
-    | some out => s!"ok {sNats out}"
-    | none => "F"
-  if modelS != impl then
-    pure s!"DISAGREE IDX.missing model={modelS} impl={impl}"
-  else
-    match model with
-    | none => pure "DISAGREE IDX.missing model-out-of-fuel"
-    | some out =>
-      let acyc := isAcyclicScheme s
-      if acyc && !checkMissing s.req known keys out then
-        pure s!"ORACLE-FAIL C12 clauses-fail out={sNats out}"
-      else
-        pure s!"ok {if acyc then "acyclic" else "cyclic"} {flagsMissing s out}"
-
-def handleBindAll : Parser String := do
-  let _kind ← pNat
-  let s ← pScheme
-  let h ← pTHost
-  let start ← pList (pPair pNat pNat)
-  let keys ← pList pNat
-  let inc ← pBool
-  expect "=>"
-  let implToks ← rest
-  let impl := join implToks
-  let res := bindAll tMap (THost.opts s) h start keys inc
-  let modelS := s!"ok {sList (fun m => sPairs (sortPairs m)) res}"
-  if modelS != impl then
-    pure s!"DISAGREE IDX.bindall model={modelS} impl={impl}"
-  else
-    pure s!"ok n={res.length} {if res.length ≥ 2 then "nt" else ""} {if inc then "inc" else "complete"}"
 
 def handle (line : String) : String :=
   match (line.splitOn " ").filter (· ≠ "") with
@@ -85,6 +16,10 @@ def handle (line : String) : String :=
       | "MB1" => some (handleMissing true)
       | "MBA" => some (handleMissing false)
       | "BA" => some handleBindAll
+      | "CS" => some handleCS
+      | "CSS" => some handleCSS
+      | "CSM" => some handleCSM
+      | "MO" => some handleMO
       | _ => none
     match p with
     | none => s!"BADREC unknown-kind {kind}"
